@@ -723,6 +723,52 @@ def rank_alignment(ctx, world, modes=("vjp", "jvp")):
                 ctx.fail("A3.rank", inst, f"{e.mode}:{e.prim_id}|zip-of-shapes", e.loc, f"`{(norm_text(z.node) if z.node is not None else str(z))[:70]}` pairs the entries of two shapes from the left and nothing in the rule establishes that the two arrays have the same rank: with prepended (broadcast) axes the pairs are shifted", "the operand with fewer dimensions than the result (axes prepended by broadcasting), with a size-1 axis that lines up - left-aligned - with a size-1 entry of the longer shape")
     if n == 0:
         ctx.ob("A3.rank", "no rule pairs the shapes of two different arrays entry by entry with zip()", True, "autograd/numpy/*", nontrivial=False)
+    # common-rank promotion: kron.  The operands are brought to max(ndim a, ndim b) dimensions by PREPENDING ones; a
+    # rule that promotes each operand on its own (atleast_2d(a), atleast_2d(b)) and never looks at the common rank
+    # lays the axes out for operands of equal rank only.
+    crp = set(facts.load("common_rank_promotion")["functions"])
+    for e in world.table.entries:
+        if e.spec != "maker" or e.mode not in modes or not world.in_numpy_scope(e) or not is_numpy_callable(e.prim) or base_name(e.prim) not in crp or e.argnum not in (0, 1):
+            continue
+        ir = world.ir(e)
+        inst = f"{construct_of(e)}|common rank"
+        if ir is None or not ir.ok:
+            ctx.ob("A3.rank", inst, None, e.loc)
+            continue
+        terms = [x for root in (ir.made, ir.result) if root is not None for x in walk(expand(world.ev, root, ("autograd.core.vspace",)))]
+
+        def rank_of(x):
+            """0 / 1: the operand whose rank the term reads, 'ans', or None"""
+            tgt = None
+            if x.op == "attr" and x.name == "ndim":
+                tgt = x.obj
+            elif x.op == "call" and len(x.args) == 1:
+                r_, _ = resolve_callee(world.ev, x)
+                if r_ is not None and is_numpy_callable(r_) and base_name(r_) == "ndim":
+                    tgt = x.args[0]
+                elif r_ is not None and r_.qual == "builtins.len":
+                    tgt = shape_of(x.args[0])
+            if tgt is None:
+                return None
+            if tgt.op == "arg" and tgt.get("index") in (0, 1):
+                return tgt.index
+            if tgt.op == "sym" and tgt.get("role") == "ans":
+                return "ans"
+            return None
+
+        knows = False
+        for t in terms:
+            if t.op not in ("bin", "cmp", "call", "bool", "if"):
+                continue
+            direct = [rank_of(c) for c in ([t.l, t.r] if t.op in ("bin", "cmp") else (list(t.args) if t.op == "call" else []))]
+            if 0 in direct and 1 in direct:
+                knows = True
+        if any(rank_of(t) == "ans" for t in terms):
+            knows = True
+        if knows:
+            ctx.ob("A3.rank", inst, True, e.loc)
+        else:
+            ctx.fail("A3.rank", inst, f"{e.mode}:{e.prim_id}|common-rank-never-read", e.loc, f"the rule of {base_name(e.prim)} never reads the rank the operands are promoted to (the answer's rank, or both operands' ranks in one expression such as max(ndim(a), ndim(b))): promoting each operand on its own is right only when both have the same rank", f"{base_name(e.prim)}(a, b) with b of three or more dimensions and a of fewer (a (3, 3), b (2, 3, 3)): the cotangent's axes are paired with the wrong operand axes")
     # trailing-aligned options: tile's reps.  `for axis, rep in enumerate(reps)` numbers the entries from axis 0; NumPy
     # aligns a short reps with the LAST axes.  The numbering has to start at (rank of the operand - len(reps)) - any
     # start expression that reads the operand's rank - unless the rule establishes equal lengths.
